@@ -43,6 +43,7 @@ the `no binding` outcome -- this needs path-sensitive value tracking.
 from __future__ import annotations
 
 import ast
+import re
 
 from ..dataflow import reaching_defs
 from ..facts import atoms, edge_for
@@ -164,6 +165,286 @@ def _tests_implying(g, pred, truth=True, scope=None, exact=False):
 
 def _other(edge):
     return "f" if edge == "t" else "t"
+
+
+# --------------------------------------------------------------------------- R3: value of Target.workdir by cases
+
+_UNKNOWN = "__sf_unknown__"
+_RET = "<return>"
+_HEADER_SKIP = ("body", "orelse", "finalbody", "handlers", "cases")
+
+
+def _parse(text):
+    return ast.parse(text, mode="eval").body
+
+
+def _subst(expr, env, bind=False):
+    """`expr` (re-parsed, never the engine's node) with every local name / `self.<attr>` alias replaced by the
+    symbolic value it holds in `env` (texts over the function's inputs); a walrus denotes its value and, with `bind`,
+    is recorded in `env` at its place in the evaluation order."""
+
+    class T(ast.NodeTransformer):
+        def visit_NamedExpr(self, node):
+            v = self.visit(node.value)
+            if bind:
+                env[node.target.id] = unparse(v) if len(unparse(v)) <= 600 else _UNKNOWN
+            return v
+
+        def visit_Name(self, node):
+            if isinstance(node.ctx, ast.Load) and node.id in env:
+                return _parse(env[node.id])
+            return node
+
+        def visit_Attribute(self, node):
+            if isinstance(node.ctx, ast.Load) and unparse(node) in env:
+                return _parse(env[unparse(node)])
+            return self.generic_visit(node)
+
+        def visit_Lambda(self, node):
+            return node
+
+    return T().visit(_parse(unparse(expr)))
+
+
+def _fact_key(atom):
+    return unparse(_subst(atom, {}))
+
+
+def _consistent(facts):
+    for k, v in facts:
+        if (k, not v) in facts:
+            return False
+        if v and ((f"{k} is None", True) in facts or (f"None is {k}", True) in facts):
+            return False
+    return True
+
+
+def _with_facts(facts, test, truth):
+    out = frozenset(facts | {(_fact_key(a), v) for a, v in atoms(test, truth)})
+    return out if _consistent(out) else None
+
+
+def _header_nodes(node):
+    """AST nodes of a statement without the statements nested in it (and without nested scopes)."""
+    todo = [node]
+    while todo:
+        n = todo.pop()
+        yield n
+        for name, val in ast.iter_fields(n):
+            if n is node and name in _HEADER_SKIP:
+                continue
+            for c in (val if isinstance(val, list) else [val]):
+                if isinstance(c, ast.AST) and not isinstance(c, (ast.FunctionDef, ast.AsyncFunctionDef, ast.ClassDef, ast.Lambda)):
+                    todo.append(c)
+
+
+def _bind_call(h, call):
+    """{parameter of h: argument expression} for `call`, or None (star arguments, missing argument)."""
+    if any(isinstance(x, ast.Starred) for x in call.args) or any(k.arg is None for k in call.keywords):
+        return None
+    a = h.node.args
+    if a.vararg is not None or a.kwarg is not None:
+        return None
+    pos = [x.arg for x in a.posonlyargs + a.args]
+    out = {}
+    defaults = dict(zip(reversed(pos), reversed(a.defaults)))
+    for k, dv in zip(a.kwonlyargs, a.kw_defaults):
+        if dv is not None:
+            defaults[k.arg] = dv
+    static = any(unparse(d) == "staticmethod" for d in h.decorators)
+    if h.cls is not None and not static and pos and isinstance(call.func, ast.Attribute):
+        out[pos[0]] = call.func.value
+        pos = pos[1:]
+    if len(call.args) > len(pos):
+        return None
+    for name, arg in zip(pos, call.args):
+        out[name] = arg
+    for k in call.keywords:
+        if k.arg in out or k.arg not in pos + [x.arg for x in a.kwonlyargs]:
+            return None
+        out[k.arg] = k.value
+    for name in pos + [x.arg for x in a.kwonlyargs]:
+        if name not in out:
+            if name not in defaults:
+                return None
+            out[name] = defaults[name]
+    return out
+
+
+def _expand(p, f, expr, facts, interest, depth):
+    """[(facts, leaf expression)]: the operand that an `or` / `and` chain or a conditional expression evaluates to,
+    with the truth facts under which it is chosen; a call of a single resolved helper of the program is inlined
+    (`depth` levels) into the cases of its return value."""
+    out = []
+    if isinstance(expr, ast.BoolOp):
+        stop_truth = isinstance(expr.op, ast.Or)  # `or` stops at the first truthy operand, `and` at the first falsy one
+        fs = facts
+        for i, v in enumerate(expr.values):
+            if fs is None:
+                break
+            if i == len(expr.values) - 1:
+                out.extend(_expand(p, f, v, fs, interest, depth))
+                break
+            chosen = _with_facts(fs, v, stop_truth)
+            if chosen is not None:
+                out.extend(_expand(p, f, v, chosen, interest, depth))
+            fs = _with_facts(fs, v, not stop_truth)
+        return out
+    if isinstance(expr, ast.IfExp):
+        for truth, branch_ in ((True, expr.body), (False, expr.orelse)):
+            fs = _with_facts(facts, expr.test, truth)
+            if fs is not None:
+                out.extend(_expand(p, f, branch_, fs, interest, depth))
+        return out
+    if isinstance(expr, ast.Call) and depth > 0:
+        try:
+            qs = p.resolve_call(f, expr)
+        except Exception:  # noqa: BLE001 -- an unresolvable call stays an opaque leaf
+            qs = []
+        h = p.functions.get(qs[0]) if len(qs) == 1 else None
+        if h is not None and not h.is_async and isinstance(h.node, ast.FunctionDef) \
+                and not any(isinstance(n, (ast.Yield, ast.YieldFrom)) for n in h.body_nodes()):
+            args = _bind_call(h, expr)
+            if args is not None:
+                sub = _value_cases(p, h, {k: unparse(v) for k, v in args.items()}, _RET, interest, depth - 1, facts)
+                if sub is not None:
+                    return [(fs, leaf) for fs, leaf in sub if leaf is not None]
+    return [(facts, expr)]
+
+
+def _value_cases(p, f, env0, target, interest, depth=2, facts0=frozenset(), budget=3000):
+    """Path-sensitive symbolic evaluation of a small function: [(facts, leaf expression | None)] -- for every
+    feasible normal path to the exit, the operand that `target` (a `self.<attr>` text or the return value) finally
+    denotes, expressed over the function's inputs, with the canonical truth facts (sfverif.facts atoms, locals
+    substituted by their values) that hold on that path.  Only tests that mention one of the `interest` words are
+    recorded (others merge at the join).  None when the function cannot be interpreted within `budget` states."""
+    g = f.cfg
+    word = re.compile(r"\b(" + "|".join(map(re.escape, interest)) + r")\b")
+    start = (g.entry, tuple(sorted(env0.items())), frozenset(facts0))
+    todo, seen, out = [start], {start}, []
+
+    def push(st):
+        if st not in seen:
+            seen.add(st)
+            todo.append(st)
+
+    def assign(env, tgt, text):
+        if len(text) > 600:
+            text = _UNKNOWN
+        if isinstance(tgt, ast.Name):
+            env[tgt.id] = text
+        elif isinstance(tgt, ast.Attribute) and is_name(tgt.value, "self"):
+            k = unparse(tgt)
+            if k == target or dotted(_parse(text)) is not None:
+                env[k] = text  # the tracked attribute, or a plain alias (`self.deployment = deployment`)
+            else:
+                env.pop(k, None)
+        else:
+            for x in ast.walk(tgt):
+                if isinstance(x, ast.Name) and isinstance(x.ctx, ast.Store):
+                    env[x.id] = _UNKNOWN
+
+    while todo:
+        if len(seen) > budget:
+            return None
+        nid, envt, facts = todo.pop()
+        n = g.nodes[nid]
+        env = dict(envt)
+        if nid == g.exit:
+            v = env.get(target, "None" if target == _RET else None)
+            if v is None:
+                out.append((facts, None))
+            else:
+                out.extend(_expand(p, f, _parse(v), facts, interest, depth))
+            continue
+        a = n.ast
+        sub = None
+        if isinstance(a, (ast.FunctionDef, ast.AsyncFunctionDef, ast.ClassDef)):
+            env[a.name] = _UNKNOWN
+        elif a is not None:
+            handled = set()
+            if n.kind == "return":
+                env[_RET] = unparse(_subst(a.value, env, bind=True)) if a.value is not None else "None"
+            elif n.kind == "test":
+                sub = _subst(a, env, bind=True)
+            elif n.kind == "stmt" and isinstance(a, ast.Assign):
+                text = unparse(_subst(a.value, env, bind=True))
+                for t in a.targets:
+                    assign(env, t, text)
+                    handled.update(id(x) for x in ast.walk(t))
+            elif n.kind == "stmt" and isinstance(a, ast.AnnAssign) and a.value is not None:
+                assign(env, a.target, unparse(_subst(a.value, env, bind=True)))
+                handled.update(id(x) for x in ast.walk(a.target))
+            else:
+                ws = [x for x in _header_nodes(a) if isinstance(x, ast.NamedExpr)]
+                for x in sorted(ws, key=lambda x: (x.lineno, x.col_offset)):
+                    _subst(x, env, bind=True)
+            for x in _header_nodes(a):
+                if isinstance(x, ast.NamedExpr):
+                    handled.add(id(x.target))
+            for x in _header_nodes(a):
+                if id(x) in handled:
+                    continue
+                if isinstance(x, ast.Name) and isinstance(x.ctx, (ast.Store, ast.Del)):
+                    env[x.id] = _UNKNOWN
+                elif isinstance(x, ast.Attribute) and isinstance(x.ctx, (ast.Store, ast.Del)) and unparse(x) in env:
+                    env[unparse(x)] = _UNKNOWN
+                elif isinstance(x, ast.ExceptHandler) and x.name:
+                    env[x.name] = _UNKNOWN
+        if sub is not None and not word.search(unparse(sub)):
+            sub = None
+        envt = tuple(sorted(env.items()))
+        for b, k in g.succ[nid]:
+            if k not in ("n", "t", "f"):
+                continue
+            fs = facts
+            if sub is not None and k in ("t", "f"):
+                fs = _with_facts(facts, sub, k == "t")
+                if fs is None:
+                    continue  # contradicts what the path already established
+            push((b, envt, fs))
+    return out
+
+
+
+def _workdir_order(p, ti, own, dep_p):
+    """(holds, reason).  The value of `self.workdir` at the end of Target.__init__, by cases (every feasible path x
+    every operand an `or`-chain / conditional expression / inlined private helper can yield): it is the own `workdir`
+    argument unless that is known to be falsy (or None); it is the deployment's workdir unless the latter is known
+    to be falsy too; both cases exist.  The spelling (one `or` chain, if statements that re-assign a local, several
+    assignments of the attribute, a helper) does not matter, the order of preference does."""
+    cases = _value_cases(p, ti, {}, "self.workdir", [own, dep_p])
+    if cases is None:
+        return False, "Target.__init__ is too large to evaluate `self.workdir` by cases"
+    deps = (f"{dep_p}.workdir", f"self.{dep_p}.workdir")
+
+    def absent(facts, names):
+        return any((x, False) in facts or (f"{x} is None", True) in facts or (f"None is {x}", True) in facts for x in names)
+
+    def where(facts):
+        fs = sorted(f"{k} is {'true' if v else 'false'}" for k, v in facts)
+        return ("when " + " and ".join(x[:60] for x in fs)) if fs else "unconditionally"
+
+    kinds = set()
+    for facts, leaf in cases:
+        if leaf is None:
+            return False, f"`self.workdir` is not assigned {where(facts)}"
+        text = unparse(leaf)
+        if text == own:
+            kinds.add("own")
+            continue
+        if not absent(facts, (own,)):
+            return False, f"{where(facts)} the value is `{text[:70]}` although the own `{own}` may be set"
+        if text in deps:
+            kinds.add("dep")
+            continue
+        if not absent(facts, deps):
+            return False, f"{where(facts)} the value is `{text[:70]}` although the deployment's workdir may be set"
+    if "own" not in kinds:
+        return False, f"the own `{own}` is never stored"
+    if "dep" not in kinds:
+        return False, f"the deployment's workdir (`self.{dep_p}.workdir`) is never inherited"
+    return True, ""
 
 
 # --------------------------------------------------------------------------- R1
@@ -586,14 +867,11 @@ def r3(ctx):
         if isinstance(n, (ast.Assign, ast.AnnAssign))
         and any(unparse(t) == "self.workdir" for t in (n.targets if isinstance(n, ast.Assign) else [n.target]))
     ]
-    ctx.require(len(asg) == 1 and asg[0].value is not None, "C28.R3: Target.__init__ does not assign self.workdir once")
-    v = asg[0].value
-    ok = (
-        isinstance(v, ast.BoolOp) and isinstance(v.op, ast.Or) and len(v.values) >= 2 and is_name(v.values[0], "workdir")
-        and unparse(v.values[1]) in ("self.deployment.workdir", "deployment.workdir")
-    )
+    ctx.require(len(asg) >= 1 and all(a.value is not None for a in asg), "C28.R3: Target.__init__ does not assign self.workdir")
+    ctx.require("workdir" in ti.params and "deployment" in ti.params, "C28.R3: Target.__init__ signature changed")
+    ok, why = _workdir_order(p, ti, "workdir", "deployment")
     ctx.ob("R3", "Target.workdir = own workdir, else the deployment's, else a default", ok, func=ti, node=asg[0],
-           instance="target:workdir-order", message=f"`{unparse(v)[:90]}` does not prefer the own workdir over the inherited one")
+           instance="target:workdir-order", message=f"{why}: `self.workdir` does not prefer the own workdir over the inherited one")
     # ---- _get_workdir: own first, continue only while None, return it
     gw = p.func(GWD)
     g = gw.cfg
@@ -890,6 +1168,19 @@ _VISITED_OLD = (
 
 _GWD_TEST_OLD = "while (workdir := deployment.get('workdir')) is None and (wraps := deployment.get('wraps')) is not None:"
 
+_TWD_DEFAULT = ("(os.path.join(os.path.realpath(tempfile.gettempdir()), 'streamflow') if deployment.type == 'local' else "
+                "posixpath.join('/tmp', 'streamflow'))")
+_TWD_OLD = "self.workdir: str = workdir or self.deployment.workdir or " + _TWD_DEFAULT
+_TWD_IFS = (
+    "if not workdir:\n        workdir = self.deployment.workdir\n    if not workdir:\n        if deployment.type == 'local':\n"
+    "            workdir = os.path.join(os.path.realpath(tempfile.gettempdir()), 'streamflow')\n        else:\n"
+    "            workdir = posixpath.join('/tmp', 'streamflow')\n    self.workdir: str = workdir"
+)
+_TWD_HELPER = (
+    "def _pick_workdir(own, deployment):\n    if own:\n        return own\n    inherited = deployment.workdir\n"
+    "    if inherited:\n        return inherited\n    return posixpath.join('/tmp', 'streamflow')\n"
+)
+
 VARIANTS = [
     # ---- R1
     V("get instead of propagate", UFILE, GBC, "workflow_config.propagate(path, target_type)", "workflow_config.get(path, target_type)",
@@ -1054,4 +1345,34 @@ VARIANTS = [
       "while (workdir := deployment.get('workdir')) is not False and (wraps := deployment.get('wraps')) is not None:", "R3"),
     V("extra conjunct ends the walk early", UFILE, GWD, _GWD_TEST_OLD,
       _GWD_TEST_OLD[:-1] + " and isinstance(wraps, str):", "R3"),
+    # ---- Target.workdir by cases: or-chain / conditional expression / if statements that assign / helper (B13-7)
+    V("B13-7: or-chain replaced by if statements that re-assign the parameter", DFILE, f"{TARGET}.__init__", _TWD_OLD, _TWD_IFS, None),
+    V("Target.workdir as nested conditional expressions on a temporary", DFILE, f"{TARGET}.__init__", _TWD_OLD,
+      "inherited = self.deployment.workdir\n    chosen = workdir if workdir else inherited if inherited else " + _TWD_DEFAULT
+      + "\n    self.workdir: str = chosen", None),
+    V("Target.workdir assigned in the branches of an if/elif/else, `is None` tests", DFILE, f"{TARGET}.__init__", _TWD_OLD,
+      "if workdir is not None:\n        self.workdir: str = workdir\n    elif not deployment.workdir is None:\n"
+      "        self.workdir = deployment.workdir\n    else:\n        self.workdir = " + _TWD_DEFAULT, None),
+    V("Target.workdir: or-chain on a temporary, default by a guard afterwards", DFILE, f"{TARGET}.__init__", _TWD_OLD,
+      "if not (wd := (workdir or self.deployment.workdir)):\n        wd = " + _TWD_DEFAULT + "\n    self.workdir: str = wd", None),
+    V("Target.workdir chosen by an extracted module-level helper", DFILE, f"{TARGET}.__init__", _TWD_OLD,
+      "self.workdir: str = _pick_workdir(workdir, self.deployment)", None, append=_TWD_HELPER),
+    V("if-statement shape, inherited workdir wins", DFILE, f"{TARGET}.__init__", _TWD_OLD,
+      _TWD_IFS.replace("if not workdir:\n        workdir = self.deployment.workdir\n",
+                       "if self.deployment.workdir:\n        workdir = self.deployment.workdir\n", 1), "R3"),
+    V("if-statement shape, guard of the inheritance negated", DFILE, f"{TARGET}.__init__", _TWD_OLD,
+      _TWD_IFS.replace("if not workdir:\n        workdir = self.deployment.workdir\n",
+                       "if workdir:\n        workdir = self.deployment.workdir\n", 1), "R3"),
+    V("if-statement shape, own workdir overwritten unconditionally", DFILE, f"{TARGET}.__init__", _TWD_OLD,
+      _TWD_IFS.replace("if not workdir:\n        workdir = self.deployment.workdir\n", "workdir = self.deployment.workdir\n", 1), "R3"),
+    V("if-statement shape, deployment workdir no longer inherited", DFILE, f"{TARGET}.__init__", _TWD_OLD,
+      _TWD_IFS.replace("if not workdir:\n        workdir = self.deployment.workdir\n    ", "", 1), "R3"),
+    V("if-statement shape, default shadows the deployment workdir", DFILE, f"{TARGET}.__init__", _TWD_OLD,
+      _TWD_IFS.replace("workdir = self.deployment.workdir\n    if not workdir:", "workdir = self.deployment.workdir\n    if True:", 1), "R3"),
+    V("conditional expression with the preference inverted", DFILE, f"{TARGET}.__init__", _TWD_OLD,
+      "self.workdir: str = self.deployment.workdir if self.deployment.workdir else workdir or " + _TWD_DEFAULT, "R3"),
+    V("extracted helper that prefers the inherited workdir", DFILE, f"{TARGET}.__init__", _TWD_OLD,
+      "self.workdir: str = _pick_workdir(self.deployment.workdir, self.deployment) or workdir", "R3", append=_TWD_HELPER),
+    V("self.workdir left unassigned when nothing is declared", DFILE, f"{TARGET}.__init__", _TWD_OLD,
+      "if workdir:\n        self.workdir: str = workdir\n    elif deployment.workdir:\n        self.workdir = deployment.workdir", "R3"),
 ]
